@@ -140,7 +140,7 @@ def run(case, world, caching, times=1, perm=None):
 
 def run_for_c05(case, caching, times):
     world = D.build_world(case["world"])
-    return run(case, world, caching, times), expected(case, world), True
+    return run(case, world, caching, times), expected(case, world), not case.get("sel_free")
 
 
 def check_case(case, ctx):
